@@ -845,6 +845,15 @@ M('C17', "'' accepted as a simple dict key (original defect)", HIO,
 M('C17', "simple-key predicate spelled with two comparisons (equivalent)", HIO,
   "and name not in ('', '.')", "and name != '' and name != '.'", None, expect='silent')
 
+M('C18', "sequential resume forwards 'sequential' twice (original defect)", SIM,
+  "        simulation_params = {k: v for k, v in options.items() if k != 'sequential'}\n",
+  "        simulation_params = dict(options)\n", 'RESUME-sequential')
+M('C18', 'sequential resume forwards the generated output_filename (original defect)', SIM,
+  "            simulation_params.pop('output_filename', None)\n", "            pass\n", 'RESUME-sequential')
+M('C18', "sequential resume removes 'sequential' with pop (equivalent)", SIM,
+  "        simulation_params = {k: v for k, v in options.items() if k != 'sequential'}\n",
+  "        simulation_params = dict(options)\n        simulation_params.pop('sequential')\n", None, expect='silent')
+
 # ---------------------------------------------------------------- C16 / C19
 M('C16', 'GMRES restart: relative residual norm used for normalisation (round-3 seed b)', KRY,
   """        self.total_error.append([npc.norm(self.rs[-1]) / self.b_norm])
